@@ -56,6 +56,10 @@ Tokens(gs) ==
             <<IF ColOk(g[3]) THEN <<"col", Tgt(v), <<"idx", g[3]>>>> ELSE <<"odd">>>> \o Tokens(rest)
        ELSE IF Len(g) = 5 /\ g[2] = 2 THEN
             <<IF ColOk(g[3]) /\ ColOk(g[4]) /\ ColOk(g[5]) THEN <<"col", Tgt(v), <<"rgb", g[3], g[4], g[5]>>>> ELSE <<"odd">>>> \o Tokens(rest)
+       \* ITU T.416 form with a colour-space id in front of the components (38:2:<id>:r:g:b, id usually empty): xterm reads it
+       \* like the five-element form
+       ELSE IF Len(g) = 6 /\ g[2] = 2 THEN
+            <<IF ColOk(g[4]) /\ ColOk(g[5]) /\ ColOk(g[6]) THEN <<"col", Tgt(v), <<"rgb", g[4], g[5], g[6]>>>> ELSE <<"odd">>>> \o Tokens(rest)
        ELSE IF Len(g) = 1 /\ Len(rest) >= 2 /\ rest[1] = <<5>> /\ Len(rest[2]) = 1 THEN
             <<IF ColOk(rest[2][1]) THEN <<"col", Tgt(v), <<"idx", rest[2][1]>>>> ELSE <<"odd">>>> \o Tokens(SubSeq(rest, 3, Len(rest)))
        ELSE IF Len(g) = 1 /\ Len(rest) >= 4 /\ rest[1] = <<2>> /\ Len(rest[2]) = 1 /\ Len(rest[3]) = 1 /\ Len(rest[4]) = 1 THEN
